@@ -289,10 +289,17 @@ def fresh_runs(xs, hashseed):
 # --------------------------------------------------------------------------------------------------
 # model side
 
-def model_pipeline(x):
-    """composed Lean model on the triple (None while the op is not available)"""
+def model_pipeline(x, proc_exact=None):
+    """composed Lean model on the triple (None while the op is not available).  `proc_exact`: the implementation's
+    ProcessorDesc in protocol form; only its *orders* are passed on (which valid sink-first order networkx picked is
+    not fixed by any property, but the simulator's tie-breaks depend on it)."""
+    req = {"op": "pipeline", "desc": x["desc"], "isa": x["isa"], "lines": x["lines"]}
+    if proc_exact is not None:
+        req["order"] = {"in": [u["name"] for u in proc_exact["in"]], "inout": [u["name"] for u in proc_exact["inout"]],
+                        "out": [f["model"]["name"] for f in proc_exact["out"]],
+                        "internal": [f["model"]["name"] for f in proc_exact["internal"]]}
     try:
-        return core.driver().ask({"op": "pipeline", "desc": x["desc"], "isa": x["isa"], "lines": x["lines"]})
+        return core.driver().ask(req)
     except core.InfraError as e:
         if "unknown op" in str(e):
             return None
@@ -338,7 +345,7 @@ def evaluate(x, do_cli=True) -> dict:
     args_unchanged = (x == x0)
     accepted = not (isinstance(base.get("proc"), dict))
     n = len(base["prog"]) if isinstance(base.get("prog"), list) else 0
-    model = model_pipeline(x)
+    model = model_pipeline(x, base.get("proc_exact"))
     k_ok, k_why = model_agrees(model, base)
 
     # ---- C13
